@@ -155,6 +155,9 @@ class Ev:
                 return self.env[n.id]
             if n.id in ("True", "False", "None"):
                 return {"True": True, "False": False, "None": None}[n.id]
+            if n.id in self.env.get("__fnlocals__", ()):
+                # assigned somewhere in the enclosing function but not on this path
+                raise _ModelRaise(f"UnboundLocalError: {n.id}")
             raise self.bad(n, "unbound name")
         if isinstance(n, ast.Attribute):
             base = self.ev(n.value)
@@ -752,7 +755,18 @@ class Ev:
                 if k not in params and k not in kwonly:
                     raise Unsupported(f"{self.where}: unknown keyword {k} calling {fn.name}")
                 local[k] = v
-            sub = Ev({**outer, **local}, self.where, self.methods, self.max_steps)
+            fnlocals = getattr(fn, "_sa_locals", None)
+            if fnlocals is None:
+                declared = {x for g in _own_nodes(fn) if isinstance(g, (ast.Global, ast.Nonlocal)) for x in g.names}
+                fnlocals = frozenset(x.id for x in _own_nodes(fn) if isinstance(x, ast.Name) and isinstance(x.ctx, (ast.Store, ast.Del))) - declared
+                fn._sa_locals = fnlocals  # type: ignore[attr-defined]
+            # a name assigned in the function is local to it: an enclosing binding is not visible
+            inherited = dict(outer)
+            for k in fnlocals:
+                inherited.pop(k, None)
+            inherited.update(local)
+            sub = Ev(inherited, self.where, self.methods, self.max_steps)
+            sub.env["__fnlocals__"] = fnlocals
             bound = set(local)
             for name, d in zip(params[len(params) - len(defaults):], defaults):
                 if name not in bound:
